@@ -121,6 +121,21 @@ type Reader struct {
 	OnRead func()
 }
 
+// Closer makes a Reader an io.ReadCloser whose Close fails (a request body, a
+// file on a file system that goes away): a consumer that closes what it reads
+// has one more place where an error can come from.
+type Closer struct {
+	*Reader
+	Err   error
+	Calls int
+}
+
+// Close implements io.Closer.
+func (c *Closer) Close() error {
+	c.Calls++
+	return c.Err
+}
+
 // NewReader builds a reader.
 func NewReader(data []byte, plan Plan) *Reader {
 	return &Reader{Data: data, Plan: plan}
